@@ -89,7 +89,7 @@ class Ctx:
     def note(self, text):
         self.notes.append(text)
 
-    def structural_or_witness(self, r, structural_fn, witness_fn, label):
+    def structural_or_witness(self, r, structural_fn, witness_fn, label, both=False):
         """Run a structural rule; if it does not recognise the code, let branch-covering witness evaluation decide.
 
         witness_fn() -> (n_ok, [difference messages], unsupported message|None)."""
@@ -99,6 +99,17 @@ class Ctx:
         if not bad:
             for i in tmp.instances:
                 (r.ok if i["verdict"] == "ok" else r.info)(i["construct"], i["detail"], i["where"])
+            if both:
+                # the recognised shape must also evaluate as prescribed (catches edits outside the matched fragment)
+                n_ok, diffs, unsupported = witness_fn()
+                if unsupported is None:
+                    if diffs:
+                        for d in diffs[:3]:
+                            r.violation(f"{label}::witness", d, tmp.instances[0]["where"] if tmp.instances else "")
+                    else:
+                        r.ok(f"{label}::witnesses", f"{n_ok} branch-covering witness evaluations agree with the property", tmp.instances[0]["where"] if tmp.instances else "")
+                else:
+                    r.info(f"{label}::witnesses", f"witness evaluation not possible ({unsupported}); decided by the structural rule alone")
             return
         n_ok, diffs, unsupported = witness_fn()
         if unsupported is None and not diffs:
